@@ -128,6 +128,18 @@ Definition judge (run : list (ecall bytes) -> option (list (eout bytes bytes))) 
     match run (removelast cs) with Some outs => eobs_eq outs obs | None => false end
   else match run cs with Some outs => eobs_eq outs obs | None => false end.
 
+(* adjacent identical entries (same internal key, same value) collapsed *)
+Fixpoint dedup_adj (l : list entry) : list entry :=
+  match l with
+  | [] => []
+  | x :: r =>
+      match r with
+      | y :: _ => if (beq (uk (fst x)) (uk (fst y)) && (num (fst x) =? num (fst y)) && beq (snd x) (snd y))%bool
+                  then dedup_adj r else x :: dedup_adj r
+      | [] => [x]
+      end
+  end.
+
 Definition run_case (x : c02case) : bool :=
   match x with
   | CMerged cid ch ms obs =>
@@ -175,17 +187,26 @@ Definition run_case (x : c02case) : bool :=
   | CDBIter cid es s start limit ms obs =>
       let c := cmp_of_id cid in
       let l : list entry := map (fun e => ({| uk := unhex (fst (fst e)); num := snd (fst e) |}, unhex (snd e))) es in
-      sortedb (icmp c) l &&
+      (* the exported raw list is strictly sorted (the hypothesis of C02_dbiter_refines) - except in the
+         window between the commit of a memdb flush and dropFrozenMem, when the frozen memdb and its
+         just-written level-0 table are both children of the merged iterator and every entry of the memdb is
+         shown TWICE: then the list is sorted with adjacent identical copies; the list without the copies must
+         be strictly sorted, and the model must reproduce the observations both on the list as exported and
+         on the list without the copies (the copies are invisible through dbIter) *)
+      let ld := dedup_adj l in
+      sortedb (icmp c) ld &&
       forallb (fun e => (ik_kind (fst e) =? keyTypeDel kp) || (ik_kind (fst e) =? keyTypeVal kp)) l &&
       (s <=? keyMaxSeq kp) &&
       match opt_probe kp (option_map unhex start), opt_probe kp (option_map unhex limit) with
       | Some a, Some b =>
-          let sl := slice_entries c a b l in
-          match db_run c kp _ (cur_step (icmp c)) cur_obs s false (S (S (List.length sl)))
-                       (db_init (sl, SOI)) (map dec_mv ms) with
-          | Some outs => obs_eq outs obs
-          | None => false
-          end
+          let go (l0 : list entry) :=
+            let sl := slice_entries c a b l0 in
+            match db_run c kp _ (cur_step (icmp c)) cur_obs s false (S (S (List.length sl)))
+                         (db_init (sl, SOI)) (map dec_mv ms) with
+            | Some outs => obs_eq outs obs
+            | None => false
+            end in
+          go ld && (if Nat.eqb (List.length ld) (List.length l) then true else go l)
       | _, _ => false
       end
   | CDBBytes cid ri verify fname bpk strict auxm auxt mem frozen lvls walks =>
